@@ -203,3 +203,77 @@ func VerifC02Fetch() {
 	vf.Assert("fetch-handshake-never-yields-a-connection", vf.And(err != nil, conn == nil))
 	vf.Assert("fetch-handshake-creates-no-record", st.Count(vfs.KindNode) == before)
 }
+
+func init() { VfHarnesses["VerifC02FetchAndAuth"] = VerifC02FetchAndAuth }
+
+// C02 (one hello, both requests): a peer without credentials sends, in one ClientHello, its own credential-fetch
+// request and an authentication request replayed from the clear-text ALPN values of a registered node (a valid
+// nonce signature it did not make), in either order, and presents a throw-away self-signed certificate whose key
+// it holds. Whatever is waived for the fetch branch is waived for that branch only: the peer never comes out of
+// Accept with a connection, let alone an authenticated one.
+func VerifC02FetchAndAuth() {
+	ctx := context.Background()
+	st := &vfs.Storage{}
+	t0 := vf.Now()
+	vf.ShortScenario(t0, time.Second)
+	vfs.StoreRoots(ctx, st, t0)
+	// the registered node whose request is replayed
+	vid, _ := nodeenrollment.KeyIdFromPkix(vf.Pkix(3))
+	if err := (&types.NodeInformation{Id: vid, CertificatePublicKeyPkix: vf.Pkix(3), CertificatePublicKeyType: types.KEYTYPE_ED25519}).Store(ctx, st); err != nil {
+		panic(err)
+	}
+	cnonce := []byte("a-recorded-connection-nonce-32-b")
+	areq, err := proto.Marshal(&types.GenerateServerCertificatesRequest{CertificatePublicKeyPkix: vf.Pkix(3), Nonce: cnonce, NonceSignature: vf.SigBy(3, cnonce)})
+	if err != nil {
+		panic(err)
+	}
+	authProtos, err := nodetls.BreakIntoNextProtos(nodeenrollment.AuthenticateNodeNextProtoV1Prefix, base64.RawStdEncoding.EncodeToString(areq))
+	if err != nil {
+		panic(err)
+	}
+	// the peer's own fetch request (key 6), authorized or not
+	nonce := []byte("the-peers-registration-nonce-32b")
+	if vf.Bool("fetch-request-authorized") {
+		id, _ := nodeenrollment.KeyIdFromPkix(vf.Pkix(6))
+		rec := &types.NodeInformation{Id: id, CertificatePublicKeyPkix: vf.Pkix(6), CertificatePublicKeyType: types.KEYTYPE_ED25519,
+			EncryptionPublicKeyBytes: vf.X25519Pub(0), EncryptionPublicKeyType: types.KEYTYPE_X25519, RegistrationNonce: nonce,
+			ServerEncryptionPrivateKeyBytes: vf.X25519Priv(9), ServerEncryptionPrivateKeyType: types.KEYTYPE_X25519}
+		if err := rec.Store(ctx, st); err != nil {
+			panic(err)
+		}
+	}
+	info := &types.FetchNodeCredentialsInfo{CertificatePublicKeyPkix: vf.Pkix(6), CertificatePublicKeyType: types.KEYTYPE_ED25519,
+		Nonce: nonce, EncryptionPublicKeyBytes: vf.X25519Pub(0), EncryptionPublicKeyType: types.KEYTYPE_X25519,
+		NotBefore: timestamppb.New(t0.Add(-time.Hour)), NotAfter: timestamppb.New(t0.Add(time.Hour))}
+	bundle, err := proto.Marshal(info)
+	if err != nil {
+		panic(err)
+	}
+	freq, err := proto.Marshal(&types.FetchNodeCredentialsRequest{Bundle: bundle, BundleSignature: vf.SigBy(6, bundle)})
+	if err != nil {
+		panic(err)
+	}
+	fetchProtos, err := nodetls.BreakIntoNextProtos(nodeenrollment.FetchNodeCredsNextProtoV1Prefix, base64.RawStdEncoding.EncodeToString(freq))
+	if err != nil {
+		panic(err)
+	}
+	protos := append(append([]string{}, fetchProtos...), authProtos...)
+	if vf.Bool("authentication-request-first") {
+		protos = append(append([]string{}, authProtos...), fetchProtos...)
+	}
+	tmpl := vfs.RootTemplate(6, t0.Add(-time.Hour), t0.Add(time.Hour))
+	// the certificate names whatever helps: the replayed node's key ID as common name and DNS name
+	tmpl.Subject.CommonName, tmpl.DNSNames = vid, []string{vid}
+	peer := &vfs.Peer{Protos: protos, Chain: [][]byte{vfs.MkCert(tmpl, tmpl, 6, 6)}, HoldsLeafKey: true}
+	peer.Conn = vf.AdversaryConn(peer.Protos, peer.Chain, 6, true)
+	before := st.Count(vfs.KindNode)
+	l, err := NewInterceptingListener(&InterceptingListenerConfiguration{Context: ctx, Storage: st, BaseListener: vfOneConn(peer)})
+	if err != nil {
+		panic(err)
+	}
+	conn, err := l.Accept()
+	vf.Assume(vf.TimeLE(vf.Now(), t0.Add(time.Second)))
+	vf.Reach("accept-returned")
+	vf.Assert("peer-without-credentials-gets-no-connection", vf.And(err != nil, conn == nil))
+	vf.Assert("no-record-created", st.Count(vfs.KindNode) == before)
+}
